@@ -9,7 +9,7 @@ rng = random.Random(seed)
 cases = (comp["fixed"]("quick") if "--nofixed" not in sys.argv else []) + [comp["gen"](rng) for _ in range(n)]
 lines = [hexline(c) for c in cases]
 t = time.time()
-outs = run_sharded(["/verif/target/release/E2E", comp["name"]], lines, per=1, line_timeout=300)
+outs = run_sharded([os.environ.get("E2E_BIN", "/verif/target/release/E2E"), comp["name"]], lines, per=1, line_timeout=300)
 t1 = time.time()
 ver = run_sharded(["/verif/build/ocaml/E2E/model_E2E", "judge", comp["name"]], ["%s | %s" % (a, b) for a, b in zip(lines, outs)])
 t2 = time.time()
